@@ -106,7 +106,8 @@ class FnSpec:
         self.macros = list(macros)
         self.block_nth = block_nth
         self.loops_optional = loops_optional
-        self.hints = list(hints)           # [(anchor regex, proof text)]: ghost-only proof hints inserted AFTER the matched text (skipped if the anchor is gone)
+        self.hints = list(hints)           # [(anchor regex, proof text[, "before"])]: ghost-only proof hints inserted AFTER (or BEFORE) the matched text; skipped if the
+                                           # anchor is gone -- a function that then fails to verify is reported UNDECIDED (the proof lost its hint), never as a violation
         self.block_anchor = block_anchor      # regex inside the fn: extract the balanced {..} block that follows it instead of the whole body
         self.attrs = attrs
         self.kind = kind                      # property | mechanism | helper
@@ -172,10 +173,15 @@ class FnSpec:
                 sig = re.sub(r.pattern, r.repl, sig, flags=r.flags)
             if self.out_name != self.name:
                 sig = re.sub(r"\bfn\s+" + re.escape(self.name) + r"\b", "fn " + self.out_name, sig)
-        for anchor, text_ in self.hints:
-            body, n_h = re.subn(anchor, lambda m_, t_=text_: m_.group(0) + " " + t_, body, count=1, flags=re.S)
+        hints_skipped = 0
+        for h_ in self.hints:
+            anchor, text_ = h_[0], h_[1]
+            before = len(h_) > 2 and h_[2] == "before"
+            body, n_h = re.subn(anchor, (lambda m_, t_=text_: t_ + " " + m_.group(0)) if before else (lambda m_, t_=text_: m_.group(0) + " " + t_), body, count=1, flags=re.S)
             if n_h:
                 flog["ghost-hint"] = flog.get("ghost-hint", 0) + 1
+            else:
+                hints_skipped += 1
         # loops
         if self.loops:
             body = insert_loop_specs(body, self.loops, where, self.loops_optional)
@@ -193,7 +199,7 @@ class FnSpec:
             log[k] = log.get(k, 0) + v
         diff = "".join(difflib.unified_diff(lx.strip_comments(real_fn).splitlines(True), out.splitlines(True),
                                             f"{self.file}:{line} (real, comments stripped)", f"verus:{self.out_name}", n=2))
-        return out, {"file": self.file, "line": line, "fn": self.name, "rules": flog, "diff": diff}
+        return out, {"file": self.file, "line": line, "fn": self.name, "rules": flog, "diff": diff, "hints_skipped": hints_skipped}
 
 
 LOOP_RE = re.compile(r"\b(loop|while|for)\b")
